@@ -691,7 +691,7 @@ def wrong_form_variant(spec, r=None):
     return d if walk(d) else None
 
 
-def insert_virtuals(r, spec, nmax, declare_form, declare_length, prefix="k"):
+def insert_virtuals(r, spec, nmax, declare_form, declare_length, prefix="k", force_root=False):
     """returns a copy of spec with up to nmax VirtualArray nodes inserted (never directly under a string list: the
     validity rules require a NumpyArray there). Keys are unique."""
     import copy
@@ -707,6 +707,8 @@ def insert_virtuals(r, spec, nmax, declare_form, declare_length, prefix="k"):
             collect(c, s, ("contents", i))
     collect(d, None, None)
     r.shuffle(sites)
+    if force_root:
+        sites.sort(key=lambda ps: ps[0] is not None)      # the whole array first (stable: the rest keeps its order)
     chosen = sites[:r.randint(1, max(1, nmax))]
     count = [0]
 
